@@ -83,7 +83,7 @@ PROPERTIES = {
     },
     "C09": {
         "units": ["U-iterate", "U-resolver"],
-        "claim": "For every budget >= 1: the number of passes resolve_iteratively reports lies in [1, budget]; a Resolved pass on the last allowed iteration is itself the confirming pass; assertions are evaluated only in a last pass. The nested loop of asm blocks (eval_asm::resolve_iteratively) returns a value only from an inner pass that ran with guessing forbidden and was stable (or Unknown while the outer pass may still guess).",
+        "claim": "For every budget >= 1: the number of passes resolve_iteratively reports lies in [1, budget]; a Resolved pass on the last allowed iteration is itself the confirming pass; assertions are evaluated only in a last pass. The nested loop of asm blocks (eval_asm::resolve_iteratively) returns a value only from an inner pass that ran with guessing forbidden and was stable (or Unknown while the outer pass may still guess). Every per-item resolver answers Resolved only when the value it stored equals the one from the previous pass (the resolved_means_unchanged clauses, shared with C02), so success comes only from a pass that changed nothing, whatever the budget.",
         "not_reached": "monotonicity in the budget (a relation between two runs, not a contract on one call); --iters 0 rejection (driver string code); eval_asm::resolve_once (the inner pass itself)",
         "trusted_base": REPORT_TB + RESOLVER_TB,
     },
